@@ -59,6 +59,7 @@ class Run:
         self.samples = []
         self.notes = []
         self.reached = []
+        self.not_proved = []
 
     def thorough(self):
         return self.tier == "thorough"
@@ -203,6 +204,8 @@ def do_check(run: Run, args):
         if rep.status != "ok":
             run.functions.append({"function": c.ident, "target": c.target, "status": rep.status, "reason": rep.reason[:300]})
             run.notes.append(f"{c.ident}: {rep.status} ({rep.reason}) -- no obligation generated; contract checked natively on sampled inputs only (bounded)")
+            print(f"NOTE property={run.pid} {c.ident} is {rep.status}: {rep.reason[:200]} -- not proved on this tree (bounded native check only)")
+            run.not_proved.append(c.ident)
             continue
         if rep.unit is not None:
             run.functions.append({"function": c.ident, "target": c.target, "status": "under contract", "source_sha": rep.unit.sha,
@@ -218,7 +221,9 @@ def do_check(run: Run, args):
             if kind == "cover":
                 ok = any(r["result"] == "sat" for _, r in lst)
                 run.cover_rows.append({"function": fn, "cover": cl, "reached": ok})
-                if not ok:
+                if not ok and tagged_elsewhere(c, cl, run.pid):
+                    run.notes.append(f"{fn}.{cl} unreachable, but it is a witness clause of {c.property_clauses.get(cl)} only")
+                elif not ok:
                     base = load_baseline().get(run.pid, [])
                     if f"{fn}.{cl}" in base:
                         # a behaviour the contract says must be possible was reachable on the pinned tree and no longer is
@@ -367,6 +372,9 @@ def do_check(run: Run, args):
         gone = [b for b in base if b not in have and not any(b.startswith(f["function"] + ".") for f in run.functions if f["status"] != "under contract")]
         if gone:
             run.checker_errors.append(f"{len(gone)} obligations of the committed baseline were not generated: {gone[:5]}")
+    if args.write_baseline and run.not_proved:
+        print(f"refusing to write a baseline: functions not proved: {run.not_proved}")
+        args.write_baseline = False
     if args.write_baseline:
         p = os.path.join(ROOT, "baseline", "obligations.json")
         allb = load_baseline()
